@@ -393,3 +393,29 @@ pub fn minmax<'a>(inp: impl Iterator<Item = (&'a i64,)>) -> impl Iterator<Item =
 pub fn argmin<'a>(inp: impl Iterator<Item = (&'a i64, &'a i64)>) -> impl Iterator<Item = i64> {
    inp.map(|(c, i)| (*c, *i)).min().map(|(_, i)| i).into_iter()
 }
+
+/// `a * b` computed by a NESTED Ascent program: another program instance (compiled with `#![generate_run_timeout]`) constructed and run to completion with `run()` on the
+/// calling thread, from inside a rule of the program that is being evaluated (tools/vlib: printer sugar `nested_mul` of the engine checks). One tuple per iteration, so the
+/// inner run goes through `a * b` iterations of its recursive stratum.
+pub fn nested_mul(a: i64, b: i64) -> i64 {
+   if !(0..=12).contains(&a) || !(0..=12).contains(&b) {
+      return a * b;
+   }
+   let mut p = nested::Mul::default();
+   p.lim = vec![(a, b)];
+   p.run();
+   p.m.len() as i64
+}
+
+#[allow(unused, non_snake_case, clippy::all)]
+mod nested {
+   ascent::ascent! {
+      #![generate_run_timeout]
+      pub struct Mul;
+      relation lim(i64, i64);
+      relation m(i64, i64);
+      m(0, 0) <-- lim(a, b), if *a > 0 && *b > 0;
+      m(*i, *j + 1) <-- m(i, j), lim(_, b), if *j + 1 < *b;
+      m(*i + 1, 0) <-- m(i, j), lim(a, b), if *j + 1 == *b && *i + 1 < *a;
+   }
+}
